@@ -95,6 +95,7 @@ pub fn run(args: &Args) -> SubResult {
             check_c06: true,
             check_c10: true,
             check_ledger: true,
+            check_presence: false,
         };
         let deep = thorough || (idx + args.seed as usize) % 7 == 0;
         let s = Search { harness: "c14_attrib", cfg, init: vec!["load N t".into()], moves: vec![edits()], depth: if deep { 2 } else { 1 }, dedup: true, max_hist: 0 };
